@@ -27,7 +27,10 @@ Hypothesis Hn : w_nodes w h = Some n.
 Hypothesis Hname : n_name n' = n_name n.
 Hypothesis Htype : n_type n' = n_type n.
 Hypothesis Hkids : elem_ids (n_content n') = elem_ids (n_content n).
-Hypothesis Hns : n_name n <> SHORTN.
+(* h is not a SHORT-NAME element, or it is one that gives no element its name *)
+Hypothesis Hns : n_name n = SHORTN ->
+  (forall j nj, w_nodes w j = Some nj -> hd_error (n_content nj) = Some (CElem h) -> named T (n_type nj) = false) /\
+  (forall s, cdata_of T n' = Some (DString s) -> ~ In 47 s).
 Hypothesis Hhead : named T (n_type n) = true ->
   hd_error (n_content n') = hd_error (n_content n)
   \/ (identifiable_n T w n = false /\ identifiable_n T (edit_world w h n') n' = false).
@@ -39,15 +42,20 @@ Proof. intros Hne. cbn. apply upd_neq. exact Hne. Qed.
 Lemma edit_self : w_nodes w' h = Some n'.
 Proof. cbn. apply upd_eq. Qed.
 
-(* the SHORT-NAME child seen through a content list is the same in both worlds (h is not a SHORT-NAME element) *)
+(* the SHORT-NAME child seen through a content list whose head is not h is the same in both worlds; if the head is h
+   then h is not a SHORT-NAME element, or the node is not of a named type *)
 Lemma short_child_edit_hd (x : node) :
+  (hd_error (n_content x) = Some (CElem h) -> n_name n <> SHORTN) ->
   short_child T w' x = short_child T w x.
 Proof.
-  rewrite !short_child_hd. destruct (hd_error (n_content x)) as [[s|d]|]; try reflexivity.
+  intros Hx. rewrite !short_child_hd. destruct (hd_error (n_content x)) as [[s|d]|]; try reflexivity.
   destruct (N.eq_dec s h) as [->|Hne].
-  - rewrite edit_self, Hn, Hname. apply N.eqb_neq in Hns. rewrite Hns. reflexivity.
+  - rewrite edit_self, Hn, Hname. specialize (Hx eq_refl). apply N.eqb_neq in Hx. rewrite Hx. reflexivity.
   - rewrite edit_other by exact Hne. reflexivity.
 Qed.
+Lemma unnamed_readings ww x : named T (n_type x) = false ->
+  item_name_n T ww x = None /\ identifiable_n T ww x = false /\ seg_n T ww x = [].
+Proof. intros H. unfold seg_n, item_name_n, identifiable_n. rewrite H. auto. Qed.
 
 Lemma readings_edit j nj :
   w_nodes w j = Some nj ->
@@ -61,12 +69,16 @@ Proof.
     + destruct (Hhead eq_refl) as [Hh|(Hi & Hi')].
       * apply readings_ext; [exact Htype|]. rewrite (short_child_hd T w' n'), (short_child_hd T w n), Hh.
         rewrite <- (short_child_hd T w' n). rewrite <- (short_child_hd T w n). apply short_child_edit_hd.
+        intros Hhd Hs. destruct (Hns Hs) as (Hin & _). rewrite (Hin _ _ Hn Hhd) in Enm. discriminate.
       * assert (forall ww nn, identifiable_n T ww nn = false -> item_name_n T ww nn = None).
         { intros ww nn H. destruct (item_name_n T ww nn) eqn:E; [|reflexivity]. apply item_name_identifiable in E. congruence. }
         fold w' in Hi'. unfold seg_n. rewrite (H _ _ Hi), (H _ _ Hi'), Hi, Hi'. auto.
     + unfold seg_n, item_name_n, identifiable_n. rewrite Htype, Enm. auto.
   - exists nj. split; [rewrite edit_other by exact Hne; exact Hj|]. split; [reflexivity|]. split; [reflexivity|].
-    apply readings_ext; [reflexivity|]. apply short_child_edit_hd.
+    destruct (named T (n_type nj)) eqn:Enm.
+    + apply readings_ext; [reflexivity|]. apply short_child_edit_hd.
+      intros Hhd Hs. destruct (Hns Hs) as (Hin & _). rewrite (Hin _ _ Hj Hhd) in Enm. discriminate.
+    + destruct (unnamed_readings w' nj Enm) as (-> & -> & ->). destruct (unnamed_readings w nj Enm) as (-> & -> & ->). auto.
 Qed.
 
 Lemma seg_edit j : seg T w' j = seg T w j.
@@ -110,10 +122,10 @@ Theorem inv04_edit_node : Inv04 w -> Inv04 w'.
 Proof.
   intros [I1 I2 I3 IL I4 I5]. constructor.
   - intros j nj' Hj Hnm. destruct (N.eq_dec j h) as [->|Hne].
-    + rewrite edit_self in Hj. injection Hj as <-. rewrite Hname in Hnm. contradiction.
+    + rewrite edit_self in Hj. injection Hj as <-. rewrite Hname in Hnm. rewrite Htype. eapply I1; eauto.
     + rewrite edit_other in Hj by exact Hne. eapply I1; eauto.
   - intros j nj' s Hj Hnm Hcd. destruct (N.eq_dec j h) as [->|Hne].
-    + rewrite edit_self in Hj. injection Hj as <-. rewrite Hname in Hnm. contradiction.
+    + rewrite edit_self in Hj. injection Hj as <-. rewrite Hname in Hnm. destruct (Hns Hnm) as (_ & Hsl). auto.
     + rewrite edit_other in Hj by exact Hne. eapply I2; eauto.
   - intros j nj' Hj Hid. destruct (w_nodes w j) as [nj|] eqn:Ej.
     + destruct (readings_edit _ _ Ej) as (nj2 & Hj2 & _ & _ & Hin & Hidn & _). rewrite Hj in Hj2. injection Hj2 as <-.
@@ -195,6 +207,7 @@ Lemma poo_remove_reference_origin m p e : poo (remove_reference_origin m p e).
 Proof. unfold remove_reference_origin. oo_tac. Qed.
 Lemma poo_fix_reference_origins m a b e : poo (fix_reference_origins m a b e).
 Proof. unfold fix_reference_origins. oo_tac. Qed.
+Hint Resolve poo_add_reference_origin poo_remove_reference_origin poo_fix_reference_origins : oo.
 
 Lemma OO_inv04 w w' : OO w w' -> Inv04 w -> Inv04 w'.
 Proof.
@@ -213,7 +226,7 @@ Proof.
   apply set_node_inv in H as (_ & ->).
   apply (inv04_edit_node w h n); auto.
   - cbn. apply elem_ids_insert_cdata.
-  - intros Hs. rewrite (short_node_mode _ _ _ HI Hn Hs) in Hv. discriminate.
+  - intros Hs. exfalso. rewrite (short_node_mode _ _ _ HI Hn Hs) in Hv. discriminate.
   - intros Hnm. cbn [Known04] in HK. destruct (N.eq_dec pos 0) as [->|Hp].
     + right. cbn in HK. unfold identifiable in HK. rewrite Hn in HK. split; [exact HK|].
       unfold identifiable_n, short_child. cbn. destruct (n_content n); cbn; apply andb_false_r.
@@ -232,7 +245,7 @@ Proof.
   apply set_node_inv in H as (_ & ->).
   apply (inv04_edit_node w h n); auto.
   - cbn. eapply elem_ids_remove_cdata; eauto.
-  - intros Hs. rewrite (short_node_mode _ _ _ HI Hn Hs) in Hv. discriminate.
+  - intros Hs. exfalso. rewrite (short_node_mode _ _ _ HI Hn Hs) in Hv. discriminate.
   - intros Hnm. cbn [Known04] in HK. destruct (N.eq_dec pos 0) as [->|Hp].
     + right. cbn in En. destruct (n_content n) as [|it rest] eqn:Ec; [discriminate|]. injection En as ->.
       split; [unfold identifiable_n, short_child; rewrite Ec; apply andb_false_r|].
@@ -265,8 +278,107 @@ Proof.
   apply modify_node_inv in H as (n1 & Hn1' & _ & ->). rewrite Hn1 in Hn1'. injection Hn1' as <-.
   assert (Hl : elem_ids (n_content n) = []) by (eapply (i4_leaf _ _ _ HI); eauto).
   apply (inv04_edit_node w0 h n); auto.
-  intros _. right. split; [apply hd_no_elem_not_identifiable; exact Hl|].
-  apply hd_no_elem_not_identifiable. reflexivity.
+  - intros Hs. contradiction.
+  - intros _. right. split; [apply hd_no_elem_not_identifiable; exact Hl|].
+    apply hd_no_elem_not_identifiable. reflexivity.
+Qed.
+
+(* ---------- set_character_data, the cases without re-keying: the element is not a SHORT-NAME, or it is a SHORT-NAME
+   element without text (under AllNamed such an element names nobody) *)
+Definition is_some {A} (o : option A) : bool := match o with Some _ => true | None => false end.
+
+Theorem C04_set_cdata_plain h val0 w r w' :
+  Inv04 w ->
+  (forall n, w_nodes w h = Some n -> (n_name n =? SHORTN) && is_some (cdata_of T n) = false) ->
+  e_set_character_data T tab_en check_fn LATEST h val0 w = Val (r, w') -> Inv04 w'.
+Proof.
+  intros HI Hplain H. unfold e_set_character_data in H.
+  wnode H n Hn. wval H mode Hmode.
+  match type of H with (if negb ?c then _ else _) _ = _ => destruct c eqn:Emode end; cbn [negb] in H; [|winv H; exact HI].
+  assert (Hleaf : elem_ids (n_content n) = []).
+  { apply orb_true_iff in Emode as [Em|Em].
+    - apply N.eqb_eq in Em. subst mode. eapply (i4_leaf _ _ _ HI); eauto.
+    - apply andb_true_iff in Em as (_ & Em). apply negb_true_iff in Em. apply no_elem_ids. exact Em. }
+  wval H spec Hspec. destruct spec as [cs|]; [|winv H; exact HI].
+  wbind_ro H m Em; [|exact HI]. wbind_ro H ver Ever; [|exact HI]. wval H ok0 Hok0.
+  wbind_ro H vok Evok.
+  2:{ exfalso. destruct (negb ok0 && _); [|winv Evok]. wval Evok s0 Hs0. wval Evok ok1 Hok1. winv Evok. }
+  assert (Hchk : snd vok = true -> check_value check_fn (fst vok) cs ver = Val true).
+  { destruct (negb ok0 && _).
+    - wval Evok s0 Hs0. wval Evok ok1 Hok1. winv Evok. cbn. intros ->. exact Hok1.
+    - winv Evok. cbn. intros ->. exact Hok0. }
+  clear Evok. destruct vok as [v ok]. cbn [fst snd] in Hchk. destruct ok; cbn [negb] in H; [|winv H; exact HI].
+  specialize (Hchk eq_refl).
+  wval H cd0 Hcd0.
+  pose proof (Hplain _ Hn) as Hpl. rewrite (cdata_of_val _ _ _ Hcd0) in Hpl. unfold is_some in Hpl.
+  unfold SHORT in H. fold SHORTN in H. rewrite Hpl in H.
+  wbind_ro H pp Epp; [|winv Epp]. winv Epp.
+  wval H isr Hisr.
+  set (n' := set_content n [CData v]) in *.
+  wbind_w H u w1 E1. 2:{ apply set_node_inv in E1 as ([=] & _). }
+  apply set_node_inv in E1 as (_ & ->). fold (edit_world w h n') in H.
+  assert (HI1 : Inv04 (edit_world w h n')).
+  { apply (inv04_edit_node w h n); auto.
+    - intros Hs. apply N.eqb_eq in Hs as Hsb. rewrite Hsb in Hpl. cbn [andb] in Hpl. destruct cd0; [discriminate|].
+      split.
+      + intros j nj Hj Hhd. destruct (named T (n_type nj)) eqn:Enm; [|reflexivity]. exfalso.
+        assert (Hid : identifiable_n T w nj = true).
+        { unfold identifiable_n. rewrite Enm, short_child_hd, Hhd, Hn, Hsb. reflexivity. }
+        apply (i4_named _ _ _ HI _ _ Hj) in Hid. apply Hid.
+        unfold item_name_n. rewrite Enm, short_child_hd, Hhd, Hn, Hsb, (cdata_of_val _ _ _ Hcd0). reflexivity.
+      + intros s Hcd. destruct (i4_short _ _ _ HI _ _ Hn Hs) as (Hm & _ & Hval).
+        destruct (Hval _ _ _ Hspec Hchk) as (s0 & -> & Hs0).
+        unfold cdata_of, character_data in Hcd. cbn [n' set_content n_content n_type] in Hcd. rewrite Hm in Hcd. cbn in Hcd.
+        injection Hcd as <-. exact Hs0.
+    - intros _. right. split; [apply hd_no_elem_not_identifiable; exact Hleaf|].
+      apply hd_no_elem_not_identifiable. reflexivity. }
+  wbind_w H u2 w2 E2; [|winv E2; exact HI1]. winv E2.
+  match type of H with ?c _ = _ => assert (Hoo : poo c) by oo_tac end.
+  eapply OO_inv04; [eapply Hoo; exact H|exact HI1].
+Qed.
+
+(* ---------- set_reference_target: DEST attribute (same view), reference_origins, then the text of the reference *)
+Lemma elem_ids_set_head l v : elem_ids l = [] -> elem_ids (match l with [] => [CData v] | _ :: r => CData v :: r end) = [].
+Proof. destruct l as [|[c|d] l]; cbn; auto. discriminate. Qed.
+
+Theorem C04_set_reference_target h target w r w' :
+  Inv04 w -> e_set_reference_target T tab_el tab_en check_fn LATEST h target w = Val (r, w') -> Inv04 w'.
+Proof.
+  intros HI H. unfold e_set_reference_target in H.
+  wnode H n Hn. wval H isr Hisr. destruct isr; cbn [negb] in H; [|winv H; exact HI].
+  wbind_ro H new_ref Enr; [|exact HI]. wnode H tn Htn. wval H txt Htxt.
+  wbind_ro H item Eitem.
+  2:{ destruct (from_bytes tab_en txt); winv Eitem. }
+  destruct item as [enum_item|]; [|winv H; exact HI].
+  wbind_ro H m Em; [|exact HI]. wbind_ro H ver Ever; [|exact HI].
+  wbind_w H ra w1 Ea. 2:{ apply wtry_inv in Ea as (? & _ & [=]). }
+  apply wtry_inv in Ea as (r0 & Ea & Hra). injection Hra as ->. apply raw_set_attribute_sv in Ea.
+  assert (HI1 : Inv04 w1) by (eapply Inv04_iv; [apply SV_IV; exact Ea|exact HI]).
+  destruct r0 as [u|e]; [|winv H; exact HI1].
+  wnode H n2 Hn2. wval H cd Hcd.
+  wbind_w H u2 w2 Eo.
+  2:{ eapply OO_inv04; [|exact HI1]. revert Eo. match goal with |- ?c _ = _ -> _ => assert (Hoo : poo c) by oo_tac end. apply Hoo. }
+  assert (Ho : OO w1 w2).
+  { revert Eo. match goal with |- ?c _ = _ -> _ => assert (Hoo : poo c) by oo_tac end. apply Hoo. }
+  assert (HI2 : Inv04 w2) by (eapply OO_inv04; eauto).
+  assert (Hn2' : w_nodes w2 h = Some n2) by (destruct Ho as (-> & _); exact Hn2).
+  (* the text write *)
+  assert (Hty : n_type n2 = n_type n /\ n_name n2 = n_name n).
+  { destruct Ea as (Hnv & _). specialize (Hnv h). rewrite Hn, Hn2 in Hnv. cbn in Hnv. unfold tview in Hnv. split; congruence. }
+  destruct Hty as (Hty & Hnm).
+  assert (Hmode : content_mode T (n_type n2) = Val MCharacters) by (rewrite Hty; apply (tk_ref _ _ TK); exact Hisr).
+  unfold raw_set_character_data in H.
+  wnode H n3 Hn3. rewrite Hn2' in Hn3. injection Hn3 as <-.
+  wval H mode Hm. rewrite Hmode in Hm. injection Hm as <-. change (MCharacters =? MCharacters) with true in H. cbn [orb] in H.
+  wval H spec Hspec. destruct spec as [cs|]; [|winv H; exact HI2].
+  wval H ok Hok. destruct ok; [|winv H; exact HI2].
+  apply set_node_inv in H as (_ & ->).
+  assert (Hleaf : elem_ids (n_content n2) = []) by (eapply (i4_leaf _ _ _ HI2); eauto).
+  apply (inv04_edit_node w2 h n2); auto.
+  - cbn. rewrite Hleaf. apply elem_ids_set_head. exact Hleaf.
+  - intros Hs. exfalso. rewrite Hnm in Hs. destruct (i4_short _ _ _ HI _ _ Hn Hs) as (_ & Hr & _). congruence.
+  - intros _. right. split; [apply hd_no_elem_not_identifiable; exact Hleaf|].
+    apply hd_no_elem_not_identifiable. cbn. apply elem_ids_set_head. exact Hleaf.
 Qed.
 
 End Edit.
